@@ -191,7 +191,11 @@ func parseCase(line string) (tcase, bool) {
 	c.wrap, c.hidden = kv["wrap"] == "1", kv["hidden"] == "1"
 	c.tree = kv["tree"]
 	if c.src == "syn" {
-		if _, ok := synBlocks(c.tree); !ok || !strings.HasPrefix(c.tree, "syn:") {
+		blks, ok := synBlocks(c.tree)
+		if !ok || !strings.HasPrefix(c.tree, "syn:") {
+			return c, false
+		}
+		if w, ok := synRoot(c.tree); !ok || w >= len(blks) {
 			return c, false
 		}
 		return c, true
@@ -230,6 +234,12 @@ func (r *recDAG) Add(ctx context.Context, n ipld.Node) error {
 		}
 	}
 	r.stream = append(r.stream, blkrec{n.Cid(), len(n.RawData()), isDir})
+	defer func() {
+		if p := recover(); p != nil {
+			r.failed = append(r.failed, len(r.stream)-1)
+			panic(p)
+		}
+	}()
 	err := r.inner.Add(ctx, n)
 	if err != nil {
 		r.failed = append(r.failed, len(r.stream)-1)
@@ -811,11 +821,17 @@ func runSyn(ctx context.Context, c tcase, allocs [][]int, afail, pfail []int, fa
 		}
 	}()
 	last := cid.Undef
+	want, _ := synRoot(c.tree)
+	if want == -2 {
+		last = merkledag.NewRawNode([]byte("a root that is not in the stream")).Cid()
+	}
 	for _, b := range blks {
 		data := make([]byte, b[1])
 		data[0], data[1], data[2], data[3] = byte(b[0]>>24), byte(b[0]>>16), byte(b[0]>>8), byte(b[0])
 		nd := merkledag.NewRawNode(data)
-		last = nd.Cid()
+		if want == -1 || want == b[0] {
+			last = nd.Cid()
+		}
 		if err := ar.rec.Add(ctx, nd); err != nil {
 			ar.res = "err"
 			return
@@ -853,6 +869,12 @@ func runSynCase(ctx context.Context, c tcase) string {
 	success := main.res == "ok"
 	var clOK, rpOK bool
 	rpKnown := false
+	rootInStream := false
+	for _, b := range rec.stream {
+		if b.c.Equals(main.root) {
+			rootInStream = true
+		}
+	}
 	if success && main.root.Defined() {
 		del := &mapDAG{m: main.st.stored, verify: true}
 		clOK, _ = closure(ctx, del, main.root)
@@ -871,7 +893,7 @@ func runSynCase(ctx context.Context, c tcase) string {
 	}
 	return fmt.Sprintf("res=%s stream=%s failed=%s lost=- fin=%s log=%s nodes=%s cl=%s rb=na rp=%s ri=na referr=0 req=na",
 		resTok, streamTok, common.Ints(rec.failed), finTok, nm.logTok(main.st.events, true), nm.nodesTok(main.st),
-		tri(success && main.root.Defined(), clOK), tri(success && rpKnown, rpOK))
+		tri(success && main.root.Defined() && rootInStream, clOK), tri(success && rpKnown, rpOK))
 }
 
 // run executes one case and renders its output part.
